@@ -17,6 +17,19 @@ def _npy(path):
                 vals=np.where(np.isnan(a), None, a).tolist() if a.dtype.kind == 'f' else a.tolist())
 
 
+def subset_features(rng, spec):
+    """Turn the feature store of a dense spec into one that holds a SUBSET of the spikes (`pc_feature_spike_ids.npy`
+    lists the spikes that have a row; a layout the loader and C06 support). Returns False when nothing was changed."""
+    ns = len(spec['spike_templates'])
+    if spec.get('pc_features') is None or ns < 3:
+        return False
+    # at least two rows: a feature file with ONE row is read by the loader as a 2-D array (a C04/C06 matter, not the export's)
+    keep = sorted(rng.sample(range(ns), rng.randrange(2, ns)))
+    spec['pc_features'] = [spec['pc_features'][i] for i in keep]
+    spec['pc_feature_spike_ids'] = keep
+    return True
+
+
 def run_export(case):
     from phylib.io.alf import EphysAlfCreator
     from phylib.io.model import load_model
@@ -55,12 +68,13 @@ def run_export(case):
                 spike_clusters=[int(x) for x in m.spike_clusters], spike_templates=[int(x) for x in m.spike_templates],
                 channel_mapping=[int(x) for x in m.channel_mapping], channel_positions=np.asarray(m.channel_positions).tolist(),
                 channel_probes=[int(x) for x in m.channel_probes], n_templates=int(m.n_templates), n_clusters=int(m.n_clusters),
-                n_channels=int(m.n_channels), nan_idx=[int(x) for x in np.asarray(m.nan_idx).ravel()],
+                n_channels=int(m.n_channels),
+                feat_rows=None if m.sparse_features is None else int(m.sparse_features.data.shape[0]),
                 clusters_channels=[int(x) for x in m.clusters_channels], templates_channels=[int(x) for x in m.templates_channels],
                 wmi=np.asarray(m.wmi, dtype=np.float64).tolist(),
                 templates=np.asarray(m.sparse_templates.data, dtype=np.float64).tolist(),
                 clusters_wfs=np.asarray(m.sparse_clusters.data, dtype=np.float64).tolist(),
-                amplitudes=[float(x) for x in m.amplitudes], has_features=m.sparse_features is not None,
+                amplitudes=[] if m.amplitudes is None else [float(x) for x in m.amplitudes], has_features=m.sparse_features is not None,
                 sample_rate=float(m.sample_rate), n_closest=int(m.n_closest_channels))
             res['src_model']['chans_w'] = chans_w_at_load
             if m.sparse_features is not None:
